@@ -65,8 +65,51 @@ class ToolOps(StepOps):
         self.undecided = False  # a primitive of the model gave up (unknown ordering, unknown container): the cell is not decided
         self._wrappers: Dict[str, Any] = {}
         self.lambdas: Dict[int, ast.Lambda] = {}
+        #: fault cells: ("poll", k, j) - the j-th request to source k (requests that find it exhausted included) fails;
+        #: ("call", name, j) - the j-th call of the user's callable fails
+        self.fault_at: Optional[Tuple[str, Any, int]] = None
+
+    def _use(self, env, kind: str, key) -> bool:
+        """count one use of a source or user callable; True: this is the use that fails"""
+        uses = dict(env.get("@uses", {}))
+        n = uses.get((kind, key), 0) + 1
+        uses[(kind, key)] = n
+        env["@uses"] = uses
+        return self.fault_at == (kind, key, n)
+
+    def raises(self, node, env):
+        if node.kind == "call" and isinstance(node.ast, ast.Call) and isinstance(node.ast.func, (ast.Name, ast.Attribute)) \
+                and not node.ast.keywords:
+            fv = self.ev.eval(node.ast.func, env)  # (a name, or a field the callable is kept in)
+            if isinstance(fv, tuple) and fv[:1] == ("FN",) and fv[1] in self.fns:
+                # a user callable is used here (counted once, at the call)
+                if self._use(env, "call", fv[1]):
+                    args = self._call_args(node.ast, env)
+                    self._trace(env, "call", fv[1], tuple(args) if args is not None else UNKNOWN)
+                    self._trace(env, "failed")
+                    return ("exc", "Boom")
+                return None
+        return super().raises(node, env)
+
+    def _call_args(self, call, env):
+        args: List[Any] = []
+        for a in call.args:
+            if isinstance(a, ast.Starred):
+                v = self.ev.eval(a.value, env)
+                el = self._elements(v, env)
+                if el is None:
+                    el = list(v) if isinstance(v, tuple) else None
+                if el is None:
+                    return None
+                args.extend(el)
+            else:
+                args.append(self.ev.eval(a, env))
+        return args
 
     def _pull(self, it, env):
+        if it[0] == "IT" and self._use(env, "poll", it[1]):
+            self._trace(env, "failed")
+            return ("@raise", "Boom")
         if it[0] == "SEQIT":
             pos = dict(env.get("@seqpos", {}))
             i = pos.get(it[1], 0)
@@ -310,18 +353,9 @@ class ToolOps(StepOps):
             f = call.func
             fv = ev.eval(f, env) if isinstance(f, ast.Name) else None
             if isinstance(fv, tuple) and fv[:1] == ("FN",) and fv[1] in self.fns and not call.keywords:
-                args: List[Any] = []
-                for a in call.args:
-                    if isinstance(a, ast.Starred):
-                        v = ev.eval(a.value, env)
-                        el = self._elements(v, env)
-                        if el is None:
-                            el = list(v) if isinstance(v, tuple) else None
-                        if el is None:
-                            return
-                        args.extend(el)
-                    else:
-                        args.append(ev.eval(a, env))
+                args = self._call_args(call, env)
+                if args is None:
+                    return
                 self._trace(env, "call", fv[1], tuple(args))
                 vals = dict(env.get("@callvals", {}))
                 try:
@@ -391,14 +425,41 @@ class ToolOps(StepOps):
 
 
 # ---------------------------------------------------------------------------------- oracle side
+class _Boom(Exception):
+    """the failure of a source / user callable in a fault cell"""
+
+
+_Boom.__name__ = "Boom"
+_FAULT: Dict[str, Any] = {"at": None, "uses": {}, "srcs": 0, "events": []}
+
+
+def _tick(kind: str, key) -> None:
+    """one use of a source or user callable in the oracle run; the chosen use fails"""
+    n = _FAULT["uses"].get((kind, key), 0) + 1
+    _FAULT["uses"][(kind, key)] = n
+    _FAULT["events"].append(("asks", key) if kind == "poll" else ("calls", key))
+    if _FAULT["at"] == (kind, key, n):
+        raise _Boom()
+
+
+class _Calls(list):
+    """the log of calls of the user's callable in an oracle run (a logged call is a use)"""
+    def append(self, entry) -> None:
+        super().append(entry)
+        _tick("call", entry[0])
+
+
 class _Src:
     def __init__(self, values: List[Any]):
         self.values, self.taken, self.ends = list(values), 0, 0
+        self.k = _FAULT["srcs"]  # (sources are created in argument order)
+        _FAULT["srcs"] += 1
 
     def __iter__(self):
         return self
 
     def __next__(self):
+        _tick("poll", self.k)
         if self.taken >= len(self.values):
             self.ends += 1
             raise StopIteration
@@ -412,6 +473,7 @@ def _observe(make, srcs: List[_Src], calls: List[Any]):
     end: Any = "return"
     try:
         for v in make():
+            _FAULT["events"].append(("yields",))
             ys.append(v)
             if len(ys) > 50:
                 end = "endless"
@@ -484,9 +546,14 @@ def _items(k: int, n: int) -> List[Any]:
 
 class Cell:
     def __init__(self, label: str, pos: List[Any], kw: Dict[str, Any], lengths: Dict[int, int],
-                 oracle: Callable[[], Any], items=None, fns=None, truths=None, ranks=None, limit=None):
+                 oracle: Callable[[], Any], items=None, fns=None, truths=None, ranks=None, limit=None, make_fns=None):
         self.label, self.pos, self.kw, self.lengths, self.oracle = label, pos, kw, lengths, oracle
-        self.items, self.fns, self.truths, self.ranks, self.limit = items, fns, truths, ranks, limit
+        self.items, self._fns, self.truths, self.ranks, self.limit = items, fns, truths, ranks, limit
+        self.make_fns = make_fns  # (a callable model with a state of its own is made anew for every evaluation)
+
+    @property
+    def fns(self):
+        return self.make_fns() if self.make_fns is not None else self._fns
 
 
 def _pred_cells(stdlib_fn, pred_first: bool = True):
@@ -495,7 +562,7 @@ def _pred_cells(stdlib_fn, pred_first: bool = True):
             truth = {("item", 0, i): pattern[i] for i in range(n)}
 
             def oracle(n=n, truth=truth):
-                calls: List[Any] = []
+                calls: List[Any] = _Calls()
                 src = _Src(_items(0, n))
 
                 def pred(x):
@@ -546,7 +613,7 @@ def _accumulate_cells():
     for n in range(0, 4):
         for with_initial in (False, True):
             def oracle(n=n, with_initial=with_initial):
-                calls: List[Any] = []
+                calls: List[Any] = _Calls()
                 src = _Src(_items(0, n))
 
                 def fn(x, y):
@@ -565,7 +632,7 @@ def _starmap_cells():
         items = [(("a", i), ("b", i)) for i in range(n)]
 
         def oracle(n=n, items=items):
-            calls: List[Any] = []
+            calls: List[Any] = _Calls()
             src = _Src(items)
 
             def fn(*a):
@@ -588,7 +655,7 @@ def _enumerate_cells():
 def _map_cells():
     for lens in [(n,) for n in range(0, 4)] + [(a, b) for a in range(0, 3) for b in range(0, 3)]:
         def oracle(lens=lens):
-            calls: List[Any] = []
+            calls: List[Any] = _Calls()
             srcs = [_Src(_items(k, n)) for k, n in enumerate(lens)]
 
             def fn(*a):
@@ -642,7 +709,7 @@ def _reduce_cells():
     for n in range(0, 4):
         for with_initial in (False, True):
             def oracle(n=n, with_initial=with_initial):
-                calls: List[Any] = []
+                calls: List[Any] = _Calls()
                 src = _Src(_items(0, n))
 
                 def fn(x, y):
@@ -691,7 +758,7 @@ def _minmax_cells(stdlib_fn):
                     rk.update({("key", ("item", 0, i)): ranks[i] for i in range(n)})
 
                     def oracle(n=n, ranks=ranks, with_key=with_key, with_default=with_default):
-                        calls: List[Any] = []
+                        calls: List[Any] = _Calls()
                         src = _Src([_Sym(("item", 0, i), rank=ranks[i]) for i in range(n)])
 
                         def key(x):
@@ -734,7 +801,7 @@ def _sorted_cells():
                     rk.update({("key", ("item", 0, i)): ranks[i] for i in range(n)})
 
                     def oracle(n=n, ranks=ranks, with_key=with_key, reverse=reverse):
-                        calls: List[Any] = []
+                        calls: List[Any] = _Calls()
                         src = _Src([_Sym(("item", 0, i), rank=ranks[i]) for i in range(n)])
 
                         def key(x):
@@ -766,7 +833,7 @@ def _nbest_cells(stdlib_fn):
                     rk.update({("key", ("item", 0, i)): ranks[i] for i in range(n_items)})
 
                     def oracle(n_items=n_items, ranks=ranks, n=n, with_key=with_key):
-                        calls: List[Any] = []
+                        calls: List[Any] = _Calls()
                         src = _Src([_Sym(("item", 0, i), rank=ranks[i], eq_by_rank=True) for i in range(n_items)])
 
                         def key(x):
@@ -868,7 +935,7 @@ def _callable_iter_cells():
                 return fn
 
             def oracle(values=values):
-                calls: List[Any] = []
+                calls: List[Any] = _Calls()
                 state = {"i": 0}
 
                 def f():
@@ -878,7 +945,7 @@ def _callable_iter_cells():
                 ys, taken, calls_, end = _observe(lambda: iter(f, _Val(("v", "S", 0))), [], calls)
                 return [y.sym for y in ys], taken, calls_, end
             yield Cell(f"callable returning {stop_at} values, then an object equal to the sentinel", [("FN", "F"), ("v", "S", 0)], {}, {},
-                       oracle, fns={"F": make_fn()})
+                       oracle, make_fns=lambda make_fn=make_fn: {"F": make_fn()})
 
 
 def _plain_iteration_cells():
@@ -921,13 +988,20 @@ DEVIATIONS = {
 }
 
 
-def _expected(tool: str, cell: Cell):
-    obs = cell.oracle()
+def _expected(tool: str, cell: Cell, fault_at=None):
+    """the oracle's observation (+ the uses of sources / callables it made: {("poll", k) | ("call", name): count})"""
+    _FAULT["at"], _FAULT["uses"], _FAULT["srcs"], _FAULT["events"] = fault_at, {}, 0, []
+    try:
+        obs = cell.oracle()
+    finally:
+        uses = dict(_FAULT["uses"])
+        events = list(_FAULT["events"])
+        _FAULT["at"], _FAULT["uses"], _FAULT["srcs"], _FAULT["events"] = None, {}, 0, []
     ys, taken, calls, end = obs[:4]
     result = obs[4] if len(obs) > 4 else None
-    if tool == "itertools.accumulate" and cell.lengths[0] == 0 and "initial" not in cell.kw:
+    if tool == "itertools.accumulate" and cell.lengths[0] == 0 and "initial" not in cell.kw and fault_at is None:
         end = ("raise", "TypeError")
-    return ys, taken, calls, end, result, getattr(obs, "ends", None)
+    return ys, taken, calls, end, result, getattr(obs, "ends", None), uses, events
 
 
 def _bind(ctx, u, ops, cell: Cell) -> Optional[Dict[str, Any]]:
@@ -970,11 +1044,11 @@ def _norm(v):
     return v
 
 
-ALL = ("yields", "items taken", "calls", "end", "result", "end-of-source detections")
+ALL = ("yields", "items taken", "calls", "end", "result", "end-of-source detections", "uses", "interleaving")
 #: which parts of the trace a property speaks about (a rule never demands more than its property states)
 ITEMS_AND_END = ("yields", "end", "result")          # C01: same items, same objects, same order, same end
 RESULT_AND_CALLS = ("end", "result", "calls")        # C02: same value / exception; a default is never passed to key
-CONSUMPTION = ("yields", "items taken", "calls", "end", "result", "end-of-source detections")  # C05: the whole trace
+CONSUMPTION = ("yields", "items taken", "calls", "end", "result", "end-of-source detections", "interleaving")  # C05: the whole trace
 #: C06 speaks of what is delivered before a failing use and of no use after it; how often an exhausted source is
 #: asked is C05's clause ("end-of-source detections"), not C06's
 USES = ("yields", "items taken", "calls", "end", "result")
@@ -997,6 +1071,26 @@ def aggregate_tables(ctx, rid: str, fields=RESULT_AND_CALLS) -> None:
     _tables(ctx, rid, OBJECT_AGGREGATES, "coroutine", "agg_cells", fields, make_ops=factory)
 
 
+def fault_tables(ctx, rid: str) -> None:
+    """C06 as tables: every cell of the tool and aggregation tables once more per use of a source / user callable, that use failing"""
+    ctx.rule(rid, "fault cells: every cell of the tool and aggregation tables is evaluated once more for each use of a source (a request "
+                  "that finds it exhausted included) or of the user's callable, with exactly that use raising; the items delivered "
+                  "before, the uses made (none after the failure) and the exception that ends the operation equal those of the stdlib "
+                  "function executed with the same use failing")
+    _tables(ctx, rid, TOOLS, "asyncgen", "fault_base_cells", USES, faults=True)
+    _tables(ctx, rid, AGGREGATES, "coroutine", "fault_base_cells", USES, faults=True)
+    from . import objmodel
+
+    def factory(ctx_, u, cell):
+        ops = objmodel.make_ops(ctx_, u, cell.lengths, cell.items, cell.fns)
+        ops.ranks = cell.ranks or {}
+        ops.truths = cell.truths or {}
+        return ops
+
+    _tables(ctx, rid, OBJECT_AGGREGATES, "coroutine", "fault_base_cells", USES, make_ops=factory, faults=True)
+    objmodel.merge_table(ctx, rid, USES, faults=True)
+
+
 def tool_tables(ctx, rid: str, fields=CONSUMPTION) -> None:
     ctx.rule(rid, "single-source tools as tables: takewhile, dropwhile, filterfalse, filter, pairwise, batched, accumulate, "
                   "starmap, enumerate, map, compress are evaluated abstractly over sources of 0-5 symbolic items and every "
@@ -1006,7 +1100,10 @@ def tool_tables(ctx, rid: str, fields=CONSUMPTION) -> None:
     _tables(ctx, rid, TOOLS, "asyncgen", "tool_cells", fields)
 
 
-def _tables(ctx, rid: str, tools, kind: str, counter: str, fields=ALL, make_ops=None) -> None:
+def _tables(ctx, rid: str, tools, kind: str, counter: str, fields=ALL, make_ops=None, faults: bool = False) -> None:
+    """``faults``: every cell whose fault-free trace equals the counterpart's completely is evaluated again once per use
+    of a source or user callable, with exactly that use failing (exception class Boom), and compared with the counterpart
+    whose same use fails: what was yielded before, what was used, and that the very exception ends the operation."""
     for short, cells in tools:
         if not ctx.pkg.has_unit(short):
             ctx.note(f"{rid}: {short} no longer exists under this name; not tabulated")
@@ -1017,23 +1114,24 @@ def _tables(ctx, rid: str, tools, kind: str, counter: str, fields=ALL, make_ops=
             ctx.note(f"{rid}: {short} is not a(n) {kind} function any more; not tabulated")
             continue
         cfg = cfg_of(u)
-        bad = decided = total = 0
-        for cell in cells():
-            total += 1
-            ctx.count(counter)
+        name = short.split(".")[-1]
+        std = STDLIB_NAME.get(short, name)
+        bad = decided = total = fault_bad = fault_decided = 0
+
+        def evaluate(cell, fault_at=None):
+            """('skip' | 'undecided' | 'endless' | 'ok', got, want)"""
             if make_ops is not None:
                 ops = make_ops(ctx, u, cell)
                 resolver = ops.resolver
             else:
                 ops = ToolOps(ctx, u, cell.lengths, cell.items, cell.fns, cell.truths, cell.ranks)
                 resolver = make_resolver(ctx, u, ops, skip=("aiter", "iter", "borrow", "anext", "awaitify"), coroutines=True)
+            ops.fault_at = fault_at
             env = _bind(ctx, u, ops, cell)
             if env is None:
-                continue
+                return "skip", None, None
             machine = Machine(cfg, ops, max_steps=6000 if make_ops is not None else 3000, resolver=resolver)
-            want = _expected(short, cell)
-            name = short.split(".")[-1]
-            std = STDLIB_NAME.get(short, name)
+            want = _expected(short, cell, fault_at)
             halt = None
             if cell.limit is not None:
                 def halt(node, e, k=cell.limit):
@@ -1042,16 +1140,10 @@ def _tables(ctx, rid: str, tools, kind: str, counter: str, fields=ALL, make_ops=
                 outs = machine.run(env, halt=halt)
             except AnalysisError:
                 if not machine.forked and not ops.undecided and want[3] != "endless":
-                    bad += 1
-                    decided += 1
-                    if bad <= 2:
-                        ctx.fail(rid, real, name, f"[{name}: {cell.label}] the evaluation does not reach the end of the generator: "
-                                 f"it keeps running where the stdlib {std} stops")
-                continue
+                    return "endless", None, want
+                return "undecided", None, want
             if len(outs) != 1 or ops.undecided or outs[0].env.get("@undecided"):
-                continue
-            decided += 1
-            ctx.count(counter + "_decided")
+                return "undecided", None, want
             oc = outs[0]
             tr = oc.env.get("@trace", ())
             ys = [_norm(e[1]) for e in tr if e[0] == "yield"]
@@ -1066,23 +1158,85 @@ def _tables(ctx, rid: str, tools, kind: str, counter: str, fields=ALL, make_ops=
                 end = ("raise", exc[1] if isinstance(exc, tuple) and exc[:1] == ("exc",) else str(exc))
             result = _norm(ops.resolve(oc.returned, oc.env)) if kind == "coroutine" and end == "return" else None
             ends = [sum(1 for e in tr if e[:2] == ("poll", k)) - n for k, n in zip(sorted(cell.lengths), taken)]
-            got = ([_norm(y) for y in ys], taken, calls, end, result, ends if want[5] is not None else None)
+            # the order in which sources are asked, the callable is called and items are handed out
+            inter = [("asks", e[1]) if e[0] == "poll" else ("calls", e[1]) if e[0] == "call" else ("yields",)
+                     for e in tr if e[0] in ("poll", "call", "yield")]
+            comparable = want[5] is not None and (want[7] or not (ys or calls or any(taken)))
+            got = ([_norm(y) for y in ys], taken, calls, end, result, ends if want[5] is not None else None,
+                   dict(oc.env.get("@uses", {})), inter if comparable else None, tr)
             exp = ([_norm(y) for y in want[0]], list(want[1]), [(c[0], _norm(c[1])) for c in want[2]], want[3],
-                   _norm(want[4]) if kind == "coroutine" and want[3] == "return" else None, want[5])
-            keep = [i for i, label in enumerate(ALL) if label in fields]
-            if [got[i] for i in keep] != [exp[i] for i in keep]:
+                   _norm(want[4]) if kind == "coroutine" and want[3] == "return" else None, want[5], want[6],
+                   want[7] if comparable else None)
+            return "ok", got, exp
+
+        def differences(got, exp, which):
+            return [f"{label}: evaluated {_show(g)}, stdlib {_show(w)}" for label, g, w in zip(ALL, got, exp) if g != w and label in which]
+
+        for cell in cells():
+            total += 1
+            ctx.count(counter)
+            status, got, exp = evaluate(cell)
+            if status == "endless":
+                bad += 1
+                decided += 1
+                if bad <= 2:
+                    ctx.fail(rid, real, name, f"[{name}: {cell.label}] the evaluation does not reach the end of the generator: "
+                             f"it keeps running where the stdlib {std} stops")
+                continue
+            if status != "ok":
+                continue
+            decided += 1
+            ctx.count(counter + "_decided")
+            parts = differences(got, exp, fields)
+            if parts:
                 bad += 1
                 if bad <= 2:
-                    parts = []
-                    for label, g, w in zip(ALL, got, exp):
-                        if g != w and label in fields:
-                            parts.append(f"{label}: evaluated {_show(g)}, stdlib {_show(w)}")
                     ctx.fail(rid, real, name, f"[{name}: {cell.label}] differs from the stdlib {std}", witness="; ".join(parts)[:600])
+                continue
+            if not faults or (kind == "asyncgen" and differences(got, exp, USES)) or got[6] != exp[6] or not exp[6]:
+                continue  # (the same failing use must exist on both sides)
+            positions = [(what, key, j) for (what, key), n in sorted(exp[6].items(), key=str) for j in range(1, n + 1)]
+            for at in positions:
+                k = f"{'request' if at[0] == 'poll' else 'call'} {at[2]} of {exp[6][at[:2]]} " + \
+                    (f"to source {at[1]}" if at[0] == "poll" else f"of the callable {at[1]}")
+                ctx.count("fault_cells")
+                status, fgot, fexp = evaluate(cell, fault_at=at)
+                if status == "endless":
+                    fault_bad += 1
+                    fault_decided += 1
+                    if fault_bad <= 2:
+                        ctx.fail(rid, real, name, f"[{name}: {cell.label}; {k} fails] the evaluation does not reach the "
+                                 f"end: it keeps running where the stdlib {std} raises the failure")
+                    continue
+                if status != "ok":
+                    continue
+                fault_decided += 1
+                ctx.count("fault_cells_decided")
+                # a tool is in lock-step with its counterpart (C05), so everything up to the failure is comparable; an
+                # aggregation may interleave its uses differently: what it delivers and how it ends is compared
+                parts = differences(fgot, fexp, FAULT_FIELDS if kind == "asyncgen" else ("end", "result"))
+                tr = fgot[8]
+                after = [e for e in tr[[e[0] for e in tr].index("failed") + 1:] if e[0] in ("poll", "call")] \
+                    if any(e[0] == "failed" for e in tr) else []
+                if after:
+                    parts.append(f"used again after the failure: {_show(after[:3])}")
+                if parts:
+                    fault_bad += 1
+                    if fault_bad <= 2:
+                        ctx.fail(rid, real, name, f"[{name}: {cell.label}; {k} fails] differs "
+                                 f"from the stdlib {std} whose same use fails", witness="; ".join(parts)[:600])
         ctx.count(f"decided:{short}", decided)
         if decided < total:
             ctx.note(f"{rid}: {short}: {total - decided} of {total} cell(s) not evaluable over the model")
-        if not bad and decided:
+        if not bad and decided and not faults:
             ctx.ok(rid, real, f"{short.split('.')[-1]} equals the stdlib tool on {decided} cells ({', '.join(fields)})")
+        if faults and not fault_bad and fault_decided:
+            ctx.ok(rid, real, f"{name}: a failing k-th use of a source / callable surfaces as in the stdlib {std} in {fault_decided} "
+                   "fault cells (same items before, same uses, nothing used afterwards, the failure itself ends the operation)")
+
+
+#: what a fault cell compares: items delivered before the failure, what was used (and not used again), how it ends
+FAULT_FIELDS = ("yields", "items taken", "calls", "end", "result")
 
 
 def _show(v) -> str:
